@@ -642,6 +642,8 @@ public:
       for (size_t i = 0; i < n; ++i) if ((o.c >> (i % 8)) & 1) names.push_back(cells[static_cast<size_t>(H.ent[i])].name);
       if ((o.d >> 3) & 1) std::reverse(names.begin(), names.end());
       if ((o.d >> 4) & 1) for (int t = 0; t < NNAMES; ++t) { std::string cand = NAMES[static_cast<size_t>((o.b + t) % NNAMES)]; if (findName(H.ent, cand) < 0) { names.insert(names.begin() + static_cast<long>(static_cast<size_t>(o.b) % (names.size() + 1)), cand); break; } }
+      // a name may legitimately be given twice (names collected from overlapping sources): the repeat addresses nothing
+      if (((o.d >> 5) & 1) && !names.empty()) { std::string rep = names[static_cast<size_t>(o.b) % names.size()]; names.insert(names.begin() + static_cast<long>(static_cast<size_t>(o.b / 2) % (names.size() + 1)), rep); ctx.probe("delete-names-repeated-name"); }
       std::vector<int> cur = H.ent; std::vector<bool> addressed(n, false); Out want = RET;
       for (size_t i = 0; i < n; ++i) if (std::find(names.begin(), names.end(), cells[static_cast<size_t>(H.ent[i])].name) != names.end()) addressed[i] = true;
       for (auto& nm : names) { int ti = findName(cur, nm); if (ti < 0) { if (mustExist) { want = NOTFOUND; break; } continue; } cur.erase(cur.begin() + ti); }
@@ -870,7 +872,7 @@ public:
                     "match-partial-change", "match-nothing-differs", "changed-positions-with-foreign-names", "owner-fire-strict-subset",
                     "add-refused", "include-became-update", "share-became-update", "collision-updated-differing-value", "compound-add-raised-midway", "entry-replaced",
                     "write-through-shared-cell", "write-on-copy-while-source-live", "write-on-source-while-copy-live",
-                    "delete-indices-unsorted", "delete-several-names", "delete-names-tolerated-absent",
+                    "delete-indices-unsorted", "delete-several-names", "delete-names-tolerated-absent", "delete-names-repeated-name",
                     "sublist-created", "sublist-shared", "sublist-request-unsorted", "common-parameters-proper-subset", "copy-made", "assigned-over-live-list",
                     "object-level-update-applied", "live-list-destroyed", "lookup-absent-name"};
     i.assumptions = {"all parameters have precision 0 and finite values (the statement's quantifier); -0.0 is not generated",
@@ -939,7 +941,7 @@ public:
       else if (kk == "setv") { if (rng.chance(0.3)) o.a = 0; o.b = rng.below(10); o.c = rng.below(4); if (o.c == 2 && !rng.chance(rejectRate + 0.1)) o.c = 1; o.d = (rng.chance(0.8) ? 1 : 0) | (rng.below(4) << 1); o.x = static_cast<double>(rng.below(10)); o.y = rng.real(-3, 3); }
       else if (kk == "deln") { o.b = rng.below(10); o.d = (rng.chance(0.75) ? 1 : 0) | (rng.chance(0.3) ? 2 : 0); }
       else if (kk == "deli") { o.b = rng.below(9); o.d = (rng.chance(0.3) ? 2 : 0) | (rng.chance(oobRate) ? 4 : 0) | (rng.chance(0.3) ? 8 : 0); }
-      else if (kk == "delns") { o.b = rng.below(10); o.c = rng.below(256) & rng.below(256); o.d = rng.below(2) | (rng.chance(0.3) ? 2 : 0) | (rng.chance(0.5) ? 8 : 0) | (rng.chance(0.3) ? 16 : 0); }
+      else if (kk == "delns") { o.b = rng.below(10); o.c = rng.below(256) & rng.below(256); o.d = rng.below(2) | (rng.chance(0.3) ? 2 : 0) | (rng.chance(0.5) ? 8 : 0) | (rng.chance(0.3) ? 16 : 0) | (rng.chance(0.25) ? 32 : 0); }
       else if (kk == "delis") { o.b = rng.below(8); o.c = rng.below(256) & rng.below(256); o.d = rng.below(2) | (rng.chance(0.5) ? 8 : 0) | (rng.chance(oobRate) ? 16 : 0); }
       else if (kk == "sub") { o.b = rng.below(7); o.c = rng.below(256); o.d = rng.below(2) | (rng.chance(0.5) ? 8 : 0) | (rng.chance(oobRate) ? 16 : 0) | (rng.below(64) * 32); }
       else if (kk == "copy") { o.b = rng.below(4); o.d = rng.below(6); }
